@@ -412,6 +412,7 @@ func (c *Ctx) control(name string, flagged bool) {
 type propDef struct {
 	ID          string
 	Explanation string
+	Technique   string
 	Assumptions []string
 	Trusted     []string
 	Run         func(c *Ctx)
@@ -421,9 +422,9 @@ var props = map[string]*propDef{}
 
 func register(p *propDef) { props[p.ID] = p }
 
+// fatalf aborts the current property's analysis; main turns it into an undecided obligation (exit 1).
 func fatalf(format string, args ...any) {
-	fmt.Fprintf(os.Stderr, "templvet: "+format+"\n", args...)
-	os.Exit(2)
+	panic(fmt.Sprintf("templvet: "+format, args...))
 }
 
 var slugRe = regexp.MustCompile(`[^A-Za-z0-9._-]+`)
